@@ -19,6 +19,7 @@ simulations agree on every input both sessions hold — `C01_agree_given_links` 
 hypothesis.
 -/
 import GgrsModel.Proofs.Glue
+import GgrsModel.Proofs.DelayStep
 
 namespace Ggrs
 open InputQueue
@@ -31,6 +32,10 @@ inductive Half : (P2P × TLState) → (P2P × TLState) → (P2P × TLState) → 
       Half (s, t) b (s.userExecute sv, t)
   | tick (s s' : P2P) (t : TLState) (b : P2P × TLState) (now : Nat) (reqs' : List Request) :
       s.advanceRollbackFrame now [] = .ok (s', reqs') → Half (s, t) b (s', execReqs t reqs')
+  /-- the user changes the input delay of one of this session's local players (`set_input_delay`) -/
+  | setDelay (s s' : P2P) (t : TLState) (b : P2P × TLState) (now handle delay : Nat) (r : Except GgrsError Unit) :
+      handle ∈ s.localPlayerHandles → handle < s.sync.queues.length →
+      s.setInputDelay now handle delay = .ok (s', r) → Half (s, t) b (s', t)
   /-- the next frame of a player of the other peer arrives, carrying what the owner's queue holds -/
   | arrive (s s' : P2P) (t : TLState) (b : P2P × TLState) (now : Nat) (f : Nat) (v : Input) (player : Nat)
       (handles : List Nat) (addr : Nat) :
@@ -81,6 +86,11 @@ theorem prefixOf_snoc (a b : List Input) (v : Input) (h : PrefixOf a b) (hlt : a
     rw [hv]
     simp [List.getD_eq_getElem?_getD]
 
+theorem prefixOf_append (a l : List Input) : PrefixOf a (a ++ l) := by
+  refine ⟨by simp, ?_⟩
+  intro f hf
+  simp [List.getD_eq_getElem?_getD, List.getElem?_append_left hf]
+
 /-- A remote player's stream takes the next frame at its end. -/
 theorem submit_next (sp : QSpec) (v : Input) (hd : sp.delay = 0) (hl : (sp.vals.length : Int) = sp.lastUser + 1) :
     (sp.submit (sp.vals.length : Int) v).1.vals = sp.vals ++ [v] := by
@@ -128,6 +138,34 @@ theorem half_inv (a b a' : P2P × TLState) (ghA ghB : Ghost) (h : PairInv a b gh
       show PrefixOf (ghB.specs p).vals (gh'.specs p).vals
       rw [hsp]
       exact (h.ba p hp' hn).trans (hpre p)
+  | setDelay s s' t b now handle delay r hloc hp hset =>
+    obtain ⟨gh', hinv', hg', hcase, _, _, _, _, _, hh, _⟩ := setInputDelay_spec s s' ghA t [] now handle delay r h.sa h.ga hloc hp hset
+    have hlp : s'.localPlayerHandles = s.localPlayerHandles := by unfold P2P.localPlayerHandles; rw [hh]
+    have hsp : ∀ p, (p ≠ handle → gh'.specs p = ghA.specs p) ∧ PrefixOf (ghA.specs p).vals (gh'.specs p).vals := by
+      intro p
+      rcases hcase with he | he
+      · rw [he]; exact ⟨fun _ => rfl, PrefixOf.refl _⟩
+      · rw [he]
+        unfold ghDelay
+        by_cases hpe : p = handle
+        · subst hpe
+          refine ⟨fun hne => absurd rfl hne, ?_⟩
+          simp only [if_true]
+          obtain ⟨k, hv, _, _⟩ := setDelay_facts (ghA.specs p) delay
+          rw [hv]
+          exact prefixOf_append _ _
+        · simp only [hpe, if_false]
+          exact ⟨fun _ => trivial, PrefixOf.refl _⟩
+    refine ⟨gh', hinv', hg', h.sb, h.gb, ?_, ?_⟩
+    · intro p hpo hn
+      have hn' : p ∉ s.localPlayerHandles := by rw [← hlp]; exact hn
+      have hne : p ≠ handle := fun e => hn' (e ▸ hloc)
+      show PrefixOf (gh'.specs p).vals (ghB.specs p).vals
+      rw [(hsp p).1 hne]
+      exact h.ab p hpo hn'
+    · intro p hpo hn
+      have hp' : p ∈ s.localPlayerHandles := by rw [← hlp]; exact hpo
+      exact (h.ba p hp' hn).trans (hsp p).2
   | arrive s s' t b now f v player handles addr hown hnl hpb hps hnext hle hwin hslot hev =>
     obtain ⟨gh', hinv', hg', _, _, hh, hsp⟩ :=
       glue_remoteInputX s s' ghA t now ⟨(f : Int), v⟩ player handles addr h.sa h.ga hnl (Int.natCast_nonneg _) hev
@@ -202,5 +240,46 @@ theorem PPInv_init (a b : P2P) (RA RB : Nat → List (Input × InputStatus)) (n 
     SessInv_init b RB n hqb hstb hcb, GlueInv_init b _ n (fun _ => rfl) hob hstb (by rw [hqb]; simp), ?_, ?_⟩
   · intro p _ _; exact PrefixOf.refl _
   · intro p _ _; exact PrefixOf.refl _
+
+/-- **L-pair, agreement.** After any run of the pair, the two games' last simulations (after the
+rollback phase of the next call on either side) carry the same input for every player owned by one
+of the two sessions, on every frame both have simulated and both queues hold. -/
+theorem pair_agree (x y : (P2P × TLState) × (P2P × TLState)) (h0 : PPInv x) (hrun : PStar x y)
+    (nowA nowB : Nat) (sA' sB' : P2P) (reqsA reqsB : List Request)
+    (hcA : y.1.1.advanceRollbackFrame nowA [] = .ok (sA', reqsA))
+    (hcB : y.2.1.advanceRollbackFrame nowB [] = .ok (sB', reqsB)) :
+    ∃ (r1A r1B : List Request),
+      (reqsA = r1A ∨ ∃ ins, reqsA = r1A ++ [.advance ins]) ∧ (reqsB = r1B ∨ ∃ ins, reqsB = r1B ++ [.advance ins]) ∧
+      ∀ p, ((p ∈ y.1.1.localPlayerHandles ∧ p ∉ y.2.1.localPlayerHandles) ∨
+            (p ∈ y.2.1.localPlayerHandles ∧ p ∉ y.1.1.localPlayerHandles)) →
+        p < y.1.1.sync.queues.length → p < y.2.1.sync.queues.length → ∀ f : Nat,
+        (f : Int) < y.1.1.sync.currentFrame → (f : Int) < y.2.1.sync.currentFrame →
+        (f : Int) ≤ (rget y.1.1.sync.queues p).lastAddedFrame → (f : Int) ≤ (rget y.2.1.sync.queues p).lastAddedFrame →
+        (((execReqs y.1.2 r1A).R f).getD p default).1 = (((execReqs y.2.2 r1B).R f).getD p default).1 := by
+  obtain ⟨ghA, ghB, h⟩ := PPInv_run x y h0 hrun
+  obtain ⟨s1A, r1A, g1A, _, _, hsetA, hrightA, _, _, _, hcaseA⟩ := advanceRollbackFrame_spec y.1.1 sA' ghA y.1.2 [] reqsA nowA h.sa hcA
+  obtain ⟨s1B, r1B, g1B, _, _, hsetB, hrightB, _, _, _, hcaseB⟩ := advanceRollbackFrame_spec y.2.1 sB' ghB y.2.2 [] reqsB nowB h.sb hcB
+  refine ⟨r1A, r1B, ?_, ?_, ?_⟩
+  · rcases hcaseA with h | ⟨c, ins, _, h, _⟩
+    · exact Or.inl h
+    · exact Or.inr ⟨ins, h⟩
+  · rcases hcaseB with h | ⟨c, ins, _, h, _⟩
+    · exact Or.inl h
+    · exact Or.inr ⟨ins, h⟩
+  · intro p hown hpA hpB f hfA hfB hqA hqB
+    have hlA : f < (ghA.specs p).vals.length := by
+      have := lastAdded_of_QI (h.sa.tinv.sync.all p hpA)
+      rw [this] at hqA; omega
+    have hlB : f < (ghB.specs p).vals.length := by
+      have := lastAdded_of_QI (h.sb.tinv.sync.all p hpB)
+      rw [this] at hqB; omega
+    have hpA1 : p < s1A.sync.queues.length := by rw [hsetA.nq]; exact hpA
+    have hpB1 : p < s1B.sync.queues.length := by rw [hsetB.nq]; exact hpB
+    have eA := hrightA p hpA1 f (by rw [hsetA.cur]; exact hfA) (by rw [hsetA.specs]; exact hlA)
+    have eB := hrightB p hpB1 f (by rw [hsetB.cur]; exact hfB) (by rw [hsetB.specs]; exact hlB)
+    rw [← hsetA.inv.rows p hpA1 f, ← hsetB.inv.rows p hpB1 f, eA, eB, hsetA.specs, hsetB.specs]
+    rcases hown with ⟨ha, hnb⟩ | ⟨hb, hna⟩
+    · exact ((h.ba p ha hnb).2 f hlB)
+    · exact ((h.ab p hb hna).2 f hlA).symm
 
 end Ggrs
